@@ -484,6 +484,12 @@ func tokenizable(text []byte) string {
 
 func (Area) Exec(input string) string {
 	f := strings.Fields(input)
+	if len(f) == 3 && f[0] == "hist" {
+		return execHist(f[1], f[2])
+	}
+	if len(f) == 6 && f[0] == "entry" {
+		return execEntry(f)
+	}
 	if len(f) != 6 {
 		return "BADOP"
 	}
